@@ -2,6 +2,7 @@ import QR.Model.Release
 import QR.Spec.Release
 import QR.Proofs.Release
 import QR.Proofs.Pinned
+import QR.Proofs.SourceTieC20
 /-
 C20 - the manual-page release hook (qrcode/release.py `update_manpage`).
 
@@ -116,5 +117,11 @@ example :
 /-- the Python functions this property's model mirrors have, in /repo's current working tree, exactly the normalised
     ASTs the model was written and validated against (fingerprints regenerated by T1 on every run) -/
 theorem C20_source_fingerprints : QR.Gen.fp_C20 = QR.Pinned.fp_C20 := by decide
+
+/-- the literals `update_manpage` depends on, as they stand in the source: package name, header prefix ".TH ", the quote-pair
+    pattern, field indices 3 (version) and 1 (date), the bound 5 on the number of parts -/
+theorem C20_source_literals :
+    Gen.Code.release_strings = ["qrcode", "doc", "qr.1", "name", "\"([^\"]*)\"", ".TH ", "new_version", "new_version", "%-d %b %Y", "w", "\""] ∧
+    Gen.Code.release_ints = [5, 3, 3, 1] := QR.SourceTie.release_literals
 
 end QR.Props
